@@ -116,7 +116,7 @@ func ruleStream(c *Ctx) {
 						sends = append(sends, ef)
 					}
 				}
-				if len(sends) != 2 || sends[0].Target != "P:queue" || !strings.HasPrefix(sends[0].Val.String(), "make(chan ") || sends[1].Target != sends[0].Val.String() || reCallNum.ReplaceAllString(sends[1].Val.String(), "") != "lit:Stream{Value:nil,Error:P:err}" {
+				if len(sends) != 2 || sends[0].Target != "P:queue" || !strings.HasPrefix(sends[0].Val.String(), "make(chan ") || sends[1].Target != sends[0].Val.String() || reCallNum.ReplaceAllString(sends[1].Val.String(), "") != "lit:Stream{Error:P:err}" {
 					okQ = false
 					why = "a path does not queue a fresh channel and send Stream{Value: nil, Error: err} on it" + condsDesc(sp, 3)
 				}
@@ -340,11 +340,11 @@ func ruleStream(c *Ctx) {
 				v := ef.Val.String()
 				switch {
 				case failed && !succeeded:
-					if !strings.HasPrefix(v, "lit:Stream{Value:nil,Error:") || !strings.Contains(v, e) {
+					if !strings.HasPrefix(v, "lit:Stream{Error:") || !strings.Contains(v, e) {
 						report("worker-result", "a failed parse is not delivered as Stream{Value: nil, Error: (wrapping) the parse error}", "a chunk with a syntax error", worker)
 					}
 				case succeeded && !failed:
-					if !strings.HasPrefix(v, "lit:Stream{Value:&L:") || !strings.HasSuffix(v, ",Error:nil}") {
+					if !strings.HasPrefix(v, "lit:Stream{Value:&L:") || strings.Contains(v, ",Error:") {
 						report("worker-result", "a successful parse is not delivered as Stream{Value: &parsed, Error: nil}", "any valid chunk", worker)
 					}
 				default:
